@@ -431,8 +431,8 @@ func builtinModels() map[string]modelFn {
 		// formatted text is really written to the io.Writer (its Write method runs from SSA) when
 		// the text can be formatted; a logger-style sink that cannot be formatted stays a no-op
 		w, isI := c.args[0].(IfaceVal)
-		if !isI || w.typ == nil {
-			noPrint(e, st, c)
+		if !isI || w.typ == nil || w.typ.String() == "*os.File" {
+			noPrint(e, st, c) // diagnostics to stderr/stdout are not modelled
 			return
 		}
 		cells, ok := e.formatCells(st, c.args[1].(StrVal), c.args[2].(SliceVal))
